@@ -12,6 +12,7 @@ import EdzedModel.Init
 import EdzedProofs.Init
 import EdzedProofs.InitOrder
 import EdzedProofs.InitAsyncOrder
+import EdzedProofs.InitClosure
 
 namespace Edzed.Init
 
@@ -228,6 +229,65 @@ theorem order_independent_success_partial (c : Cfg) (v : View) (hv : v.of (run c
     (h : waitInit v = .returned) : ∀ b, b < c.n → Reach c b := by
   intro b hb
   exact (run_inv c).out b ((wait_init_ok_implies_valid c v hv h).1 b hb)
+
+/-- Order independence, both directions, for circuits whose blocks have synchronous sources only (persistent
+    state, `init_regular`, initdef, a value set by the block's task right after `start()`; no `init_async`):
+    if the init-event topology is ACYCLIC (`rk` grows along every on_output edge), no routine raises and the
+    script values are defined (`Hyp`), then -- for EVERY creation order, since `c` is arbitrary and `Reach`
+    is defined by scripts and edges alone -- after `_init_sblocks_sync_2` no error has occurred and the
+    initialised blocks are EXACTLY the closure of the blocks with an own source under the edges.
+    (`NF`: the model's recursion budget was not exhausted; `hwf`: only the circuit's blocks have scripts.)
+    Not proved: the same with asynchronous routines (which of them complete in time is decided by
+    `_run_tasks`; with exact ties between a completion and another block's timeout the model itself is order
+    dependent) -- validated by the oracle over all creation orders. -/
+theorem initialised_iff_closure_sync_partial (c : Cfg) (rk : Nat → Nat) (hyp : Hyp c rk)
+    (hsync : ∀ b, (c.blk b).async = .none) (hwf : ∀ b, OwnSource (c.blk b) → b < c.n)
+    (hnf : NF (syncPhase c (afterAsync c))) :
+    (syncPhase c (afterAsync c)).ok = true ∧
+    ∀ b, ((syncPhase c (afterAsync c)).out b ≠ .undef ↔ Reach c b) :=
+  closure_sync c rk hyp hsync hwf hnf
+
+/-- ... hence start-up succeeds iff the closure covers all blocks and the first evaluation pass does not
+    fail: a condition in which the creation order does not occur -/
+theorem order_independent_success_sync_partial (c : Cfg) (rk : Nat → Nat) (hyp : Hyp c rk)
+    (hsync : ∀ b, (c.blk b).async = .none) (hwf : ∀ b, OwnSource (c.blk b) → b < c.n)
+    (hnf : NF (syncPhase c (afterAsync c))) :
+    (run c).failed = false ↔ ((∀ b, b < c.n → Reach c b) ∧ c.cblocks.any CScript.fails = false) := by
+  obtain ⟨fok, hiff⟩ := closure_sync c rk hyp hsync hwf hnf
+  constructor
+  · intro hnf'
+    have hok : (run c).ok = true := by
+      have := failed_iff_not_ok (run c); rw [hnf'] at this; simpa using this.symm
+    obtain ⟨hok1, _, _, _, hcb, _⟩ := firstPass_ok c (afterCheck c) hok
+    obtain ⟨_, hall, _⟩ := check_ok c (syncPhase c (afterAsync c)) hok1
+    refine ⟨fun b hb => (hiff b).mp ?_, hcb⟩
+    simp only [allInitialised, List.all_eq_true, List.mem_range] at hall
+    have := hall b hb
+    intro hu; rw [hu] at this; simp [Val.isUndef] at this
+  · intro ⟨hr, hcb⟩
+    have hall : allInitialised c (syncPhase c (afterAsync c)) = true := by
+      simp only [allInitialised, List.all_eq_true, List.mem_range]
+      intro b hb
+      have := (hiff b).mpr (hr b hb)
+      simpa using isUndef_of_ne this
+    have e1 : afterCheck c = syncPhase c (afterAsync c) := by
+      show check c (syncPhase c (afterAsync c)) = _
+      rw [check_of_ok c _ fok, if_pos hall]
+    have hok : (run c).ok = true := by
+      show (firstPass c (afterCheck c)).ok = true
+      rw [e1, firstPass_of_ok c _ fok, hcb]
+      exact fok
+    rw [failed_iff_not_ok, hok]; rfl
+
+/-- the hypotheses are satisfiable: a chain 0 → 1 → 2 whose first block has an initdef -/
+example : ∃ c rk, Hyp c rk ∧ (∀ b, (c.blk b).async = .none) ∧ (∀ b, OwnSource (c.blk b) → b < c.n) ∧
+    NF (syncPhase c (afterAsync c)) ∧ (run c).failed = false := by
+  refine ⟨{ n := 3, blk := fun i => if i = 0 then { initdef := some (Val.int 1, .direct), dests := [1] }
+      else if i = 1 then { dests := [2] } else {}, fuel := 64 }, id, ?_, ?_, ?_, by unfold NF; decide, by decide⟩
+  · constructor <;> intro b <;> by_cases h0 : b = 0 <;> by_cases h1 : b = 1 <;>
+      simp_all [Val.isUndef, Val.int]
+  · intro b; by_cases h0 : b = 0 <;> by_cases h1 : b = 1 <;> simp_all
+  · intro b; by_cases h0 : b = 0 <;> by_cases h1 : b = 1 <;> simp_all [OwnSource]
 
 /-- a block without any source of its own and without an incoming edge makes every start-up fail -/
 theorem unreachable_block_fails (c : Cfg) (b : Nat) (hb : b < c.n) (hn : ¬ Reach c b)
